@@ -86,7 +86,7 @@ bool endsWith(const std::string &s, const std::string &suf) { return s.size() >=
 // statement: dotted value matches that domain and all its subdomains; any other value matches only itself
 bool valueMatches(const std::string &v, const std::string &h) { // both lower case
     if (v[0] == '.') return h == v.substr(1) || endsWith(h, v);
-    return h == v || endsWith(h, "." + v);
+    return h == v;
 }
 
 bool refMatch(const std::vector<std::string> &vals, const std::string &host) {
